@@ -825,7 +825,7 @@ def _memo_same(a, b):
     return all((math.isnan(u) and math.isnan(v)) or C.close(u, v, 1e-12, 1e-14) for u, v in zip(a.ravel(), b.ravel()))
 
 
-def memo_history(ctx, rng, n_queries=8):
+def memo_history(ctx, rng, n_queries=8, origin=None):
     """A random history of queries on ONE real distribution object (`coal.tree_height`, `coal.sfs`, or the `Coalescent`
     itself; n = 4) against the model `PGModel/Memo.lean` (driver command `memo`, variant `current` or the one named by
     VERIF_MEMO_VARIANT).  Nothing is patched: hits and misses are read off `cache_info()` of the `functools.cache` wrappers
@@ -997,8 +997,16 @@ def memo_history(ctx, rng, n_queries=8):
             bad.append((i, toks[i], 'answer', dict(expected=what, want=None if want is None else want.tolist(), real=real[i].tolist())))
         if mv != '=':
             ctx.count('memo-model-predicts-wrong-answer')
+    # an answer that differs from the one a FRESH object gives to the same query is a concrete failing history of the property
+    # itself (the model agrees that a fresh answer is due: verdict '='), not only a disagreement with the model
+    wrong = [b for b in bad if b[2] == 'answer' and m_verdicts[b[0]] == '=']
+    if wrong and variant == 'current':
+        i, t, _, d = wrong[0]
+        ctx.violation('memo:answer-depends-on-history', mode='memo', memo_origin=origin, target=target, two_demes=two,
+                      history=toks[:i + 1], query=t, answered=d['real'], fresh_object_answers=d['want'])
     if bad:
-        ctx.corr_break('memo-history', request=line, model=ans, target=target, two_demes=two, mismatches=bad[:6])
+        ctx.corr_break('memo-history', request=line, model=ans, target=target, two_demes=two,
+                       mismatches=sorted(bad, key=lambda b: b[2] != 'answer')[:6])
     return line
 
 
@@ -1548,9 +1556,16 @@ def marginals_probe(ctx, rng, variant='current'):
 def one_memo(ctx, i):
     rng = random.Random(f'{ctx.seed}-corr-memo-{i}')
     line = None
-    for _ in range(6):
-        line = memo_history(ctx, rng, n_queries=rng.randint(3, 9))
+    for j in range(6):
+        line = memo_history(ctx, rng, n_queries=rng.randint(3, 9), origin=dict(seed=f'{ctx.seed}-corr-memo-{i}', nth=j))
     ctx.case(dict(kind='memo-history', batch=i, last=line), f'memo-{i}')
+
+
+def replay_memo(ctx, origin):
+    """the history is a deterministic function of (seed string, index within the batch): regenerate and re-run it"""
+    rng = random.Random(origin['seed'])
+    for j in range(int(origin['nth']) + 1):
+        memo_history(ctx, rng, n_queries=rng.randint(3, 9), origin=dict(origin, nth=j))
 
 
 def one_cache(ctx, i):
